@@ -18,3 +18,11 @@ Print Assumptions C12_call_partial.
 Theorem C12_prepare_set_invariant ps P K P' K' : (forall x, mem x P = mem x P') -> (forall x, mem x K = mem x K') -> prepare ps P K = prepare ps P' K'.
 Proof. exact (prepare_set_invariant ps P K P' K'). Qed.
 Print Assumptions C12_prepare_set_invariant.
+
+Theorem C12_cache_no_alias (V : Type) (c : list (ckey * V)) t t' f f' v : t <> t' -> cache_get (cache_set c (t', f') v) (t, f) = cache_get c (t, f).
+Proof. exact (cache_no_alias c t t' f f' v). Qed.
+Print Assumptions C12_cache_no_alias.
+
+Theorem C12_lookup_history_independent (V : Type) (build : N -> N -> V) h : fst (desc_gets build [] h) = map (fun tf => build (fst tf) (snd tf)) h.
+Proof. exact (desc_history_independent build h). Qed.
+Print Assumptions C12_lookup_history_independent.
